@@ -44,6 +44,11 @@ CLAIMED = {
             'Names and free texts are K-character symbolic holes, setting presence / operator / form selectors are symbolic or fanned out '
             '(quoting, keyword case, one-line vs multi-line, settings order, body order, schema.name / bare / alias addressing).',
             'DESIGN.md 6/C01', 'Open finding c01_backslash_in_quoted_name (pyparsing converts \\t etc. inside quoted identifiers).'),
+    'C02': ('parse -> .dbml -> parse -> .dbml over the C01 scenario documents and over API-built databases (names that need quoting, '
+            'reserved words as names of every element kind, schema-qualified tables and enums, aliases, composite / many-to-many / inline '
+            'references, every column flag and default kind): identical content after re-parse and byte-identical second rendering.',
+            'DESIGN.md 6/C02', 'Seven open findings of the renderer are excluded by narrow regions (see known_findings.json); instances whose '
+            'whole domain lies in such a region are reported as excluded, not as held.'),
 }
 _PENDING = 'check under construction in this session (harness not yet committed); not claimed until it runs clean on the unchanged tree'
 NOT_APPLICABLE = {f'C{i:02d}': _PENDING for i in range(1, 19) if f'C{i:02d}' not in CLAIMED}
